@@ -4,7 +4,8 @@ Msg(b, e) == [bytes |-> b, enc |-> e]
 Rep(b, n) == FoldLeft(LAMBDA x, i : x \o b, <<>>, Iota(n))
 \* digits (45, 71 = the smallest over-full case at 1-L, 83), alphanumeric, latin-1 bytes, UTF-8 (C5 91), Shift JIS kanji (93 5F), short ones
 PoolQuickSA == {Msg(Rep(<<55>>, 45), "l1"), Msg(Rep(<<55>>, 71), "l1"), Msg(Rep(<<65, 66, 32>>, 10), "l1"), Msg(Rep(<<97, 228>>, 12), "l1"),
-                Msg(Rep(<<197, 145>>, 11), "u8"), Msg(Rep(<<147, 95>>, 11), "l1"), Msg(<<49, 50>>, "l1")}
+                Msg(Rep(<<197, 145>>, 11), "u8"), Msg(Rep(<<147, 95>>, 11), "l1"), Msg(<<49, 50>>, "l1"),
+                Msg(Rep(<<55>>, 16) \o Rep(<<97>>, 32), "l1"), Msg(Rep(<<65>>, 17) \o Rep(<<97>>, 17), "l1")}     \* dense leading run = first chunk
 PoolSA == PoolQuickSA \cup {Msg(Rep(<<55>>, 83), "l1"), Msg(Rep(<<55, 56, 57>>, 41), "l1"), Msg(Rep(<<65>>, 51), "l1"), Msg(Rep(<<97>>, 35), "l1"),
                             Msg(Rep(<<147, 95>>, 21), "l1"), Msg(<<65>>, "l1"), Msg(Rep(<<0, 255>>, 9), "l1")}
 VersionsQuickSA == {99, 1, 2, -1}
